@@ -1,13 +1,23 @@
-# /verif top-level: `make setup` builds the Coq development (full .vo), extracts the
+# /verif top-level: `make setup` builds the Coq development (full .vo build), extracts the
 # executable models and compiles the OCaml drivers. No C++ here: harnesses are rebuilt
 # by every check from /repo's current working tree.
-.PHONY: setup coq ocaml clean
+.PHONY: setup coq ocaml clean coqproject
 setup: coq ocaml
+
+# _CoqProject lists every .v file present (dependencies are computed by coqdep)
+coqproject:
+	cd coq && (echo "-Q . EV"; ls gen/*.v *.v) > _CoqProject.new && \
+	  (cmp -s _CoqProject.new _CoqProject || mv _CoqProject.new _CoqProject); rm -f _CoqProject.new
+
 coq:
 	python3 tools/leafgen.py
+	$(MAKE) coqproject
 	cd coq && coq_makefile -f _CoqProject -o Makefile.coq >/dev/null && timeout 3000 $(MAKE) -f Makefile.coq -j16
+
+# Extract*.v write ocaml/gen/<domain>_model.ml(i); one driver per domain
 ocaml: coq
 	$(MAKE) -C ocaml
+
 clean:
 	-cd coq && $(MAKE) -f Makefile.coq clean
 	rm -rf ocaml/_build ocaml/gen build/*
